@@ -13,7 +13,7 @@ RULE = ('one run = 1-12 connections on one real executor (local queue or remote 
         'or normal completion), sequentially or overlapping; after the last one the simulated descriptor table, '
         'the selector (Python map and kernel interest set) and the executor registries must be back to '
         'baseline; non-trivial = at least one connection ended by an abort; distinct = distinct event-log digests')
-PROBES = ['threaded', 'upload_reset', 'front_tls', 'failed_front_handshake', 'forward', 'tunnel', 'web', 'static', 'reverse', 'rejected', 'client_close', 'client_reset',
+PROBES = ['access_log_taken_over', 'threaded', 'upload_reset', 'front_tls', 'failed_front_handshake', 'forward', 'tunnel', 'web', 'static', 'reverse', 'rejected', 'client_close', 'client_reset',
           'client_shut_wr', 'upstream_close', 'upstream_reset', 'connect_fail', 'errno_injected', 'idle_timeout',
           'normal', 'remote_executor', 'repeated', 'overlapping', 'fd_reused', 'gc_closed_socket']
 COMPONENTS = {
@@ -82,10 +82,17 @@ def run_one(tape: Any, cfg: Dict[str, Any], forbid: FrozenSet[str] = frozenset()
             opts.pop('client_recvbuf_size', None)
         static_dir = os.path.join(scratch_dir(), 'static10')
         files_before = scen.real_fds_under(static_dir)
+        xplugins: List[Any] = []
+        if tape.coin(0.25, 'logging-plugin'):
+            # a proxy plugin that takes over access logging (returns None from on_access_log): the documented way to do so, and
+            # no reason for the rest of the connection's teardown to be skipped
+            from ..plugins import make_proxy_plugin
+            xplugins = [make_proxy_plugin(1, {'on_access_log': 'none'}, [])]
+            w.probe('access_log_taken_over')
         flags = make_flags(['--enable-reverse-proxy'], threadless=not threaded, threaded=threaded, local_executor=0 if remote else 1,
                            timeout=2 if timeout_mode else 3600, enable_web_server=True, enable_static_server=True,
                            static_server_dir=static_dir, min_compression_length=[20, 1 << 30][tape.draw(2, 'mincomp')],
-                           plugins=[route, rp], basic_auth=None, **opts)
+                           plugins=[route, rp] + xplugins, basic_auth=None, **opts)
         h: Any = L1R(w, flags) if remote else (L3(w, flags) if threaded else L1(w, flags))
         if remote:
             w.probe('remote_executor')
